@@ -2,7 +2,7 @@
 From BV Require Import Base.Prelude Model.Block Model.ForkDB Model.Forkable Model.ForkableLookups
   Model.Burst Model.Hub Model.CursorResolver Model.Joining
   Spec.Consumer Spec.Universe Check.Burst_Check Check.C07_Check Spec.C06_Spec Spec.C07_Spec Spec.C09_Spec
-  Spec.C07_Compose_Spec Proofs.C07_ComposeCheck Proofs.C07_Compose Proofs.C07_ComposeCursor Proofs.C07_ComposeCursorAll Proofs.C07_FullRefuted Proofs.C07_FilesFinal.
+  Spec.C07_Compose_Spec Proofs.C07_ComposeCheck Proofs.C07_Compose Proofs.C07_ComposeCursor Proofs.C07_ComposeCursorAll Proofs.C07_ComposeTarget Proofs.C07_FullRefuted Proofs.C07_FilesFinal.
 Local Open Scope N_scope.
 
 (* number mode, default filter, no stop block: hub_agrees of C07_seamless_full discharged from the world *)
@@ -26,6 +26,12 @@ Print Assumptions c07_seamless_cursor_live.
 Theorem c07_seamless_cursor : C07_seamless_cursor.
 Proof. exact c07_seamless_cursor_proof. Qed.
 Print Assumptions c07_seamless_cursor.
+
+(* target-cursor mode, cursor block on canon; partial: the hub's chain contains the merged blocks in its range
+   (files_on_hub) and a stored cursor block is on the hub's chain (target_on_chain) *)
+Theorem c07_seamless_target_partial : C07_seamless_target.
+Proof. exact c07_seamless_target_proof. Qed.
+Print Assumptions c07_seamless_target_partial.
 
 (* the statement C07_seamless_full of Spec/C07_Spec.v itself is refutable (a run that ends waiting for the next
    merged file): why the theorems above have the conclusions they have *)
@@ -175,5 +181,32 @@ Proof.
     - left. split; [discriminate|]. split; [cbn; repeat split; lia | reflexivity]. }
   split; [vm_compute; reflexivity|].
   split; [eexists; split; vm_compute; reflexivity|].
+  vm_compute. reflexivity.
+Qed.
+
+(* target-cursor mode: start 5, target cursor on block 14 (in the files); the files bring 5..12, the join at 13
+   asks the hub "through the cursor": the retained chain from 13 on; then live *)
+Definition cx_cu4 : cursor := mkCursor SNew (mkR 14 14) (mkR 15 15) (mkR 12 12).
+Definition cx_c4 : jcfg := mkJ 2 0 10 2 5 (Some cx_cu4) 0 0 0.
+
+Example c07_compose_nonvacuous_target :
+  hub_of_universe cx_U cx_c4 cx_w /\ eventual_tip cx_c4 cx_w cx_canon /\
+  files_on_hub cx_c4 cx_w cx_merged /\ target_on_chain cx_c4 cx_w cx_cu4 /\
+  j_mode cx_c4 = 2 /\ j_cursor cx_c4 = Some cx_cu4 /\ j_filter cx_c4 = 0 /\ j_stop cx_c4 = 0 /\ 0 < j_bundle cx_c4 /\
+  In (cx_b 14) cx_canon /\ bref (cx_b 14) = cu_blk cx_cu4 /\
+  (exists b, In b cx_canon /\ bnum b = run_start cx_c4 cx_w) /\
+  cx_show (stream_run cx_c4 cx_w [(3, 1); (12, 2)] 15 cx_merged [])
+  = ([(SNewIrr, 5); (SNewIrr, 6); (SNewIrr, 7); (SNewIrr, 8); (SNewIrr, 9); (SNewIrr, 10); (SNewIrr, 11);
+      (SNewIrr, 12); (SNewIrr, 13); (SNew, 14); (SNew, 15); (SNew, 116); (SUndo, 116); (SNew, 16); (SNew, 17);
+      (SNew, 18); (SNew, 19); (SNew, 20)], JNil).
+Proof.
+  destruct c07_compose_nonvacuous_hyps as (_ & _ & Hhub & _ & _ & _ & _ & _).
+  split; [exact Hhub|].
+  split; [apply eventual_tip_b_sound; vm_compute; reflexivity|].
+  split; [apply files_on_hub_b_sound; vm_compute; reflexivity|].
+  split; [apply target_on_chain_b_sound; vm_compute; reflexivity|].
+  split; [reflexivity|]. split; [reflexivity|]. split; [reflexivity|]. split; [reflexivity|]. split; [reflexivity|].
+  split; [vm_compute; tauto|]. split; [reflexivity|].
+  split; [exists (cx_b 5); split; [vm_compute; tauto | vm_compute; reflexivity]|].
   vm_compute. reflexivity.
 Qed.
